@@ -26,7 +26,7 @@ Judge(e, pre) ==
                 [oc |-> r.oc, out |-> r.out, app |-> r.app, proc |-> r.proc, files |-> r.files,
                  cleanups |-> r.cleanups, cwd |-> r.cwd, failed |-> r.failed]>>)
 
-Init == tid \in 1..Len(Tr) /\ l = 0 /\ S = InitState("ok")
+Init == tid \in 1..Len(Tr) /\ l = 0 /\ S = InitState(DefaultTool)
 
 Next ==
   /\ l < Len(Tr[tid])
